@@ -15,9 +15,12 @@ open Driver.Fam.Ser (showV parseNumb)
 def name : String := "storeval"
 
 def handle : Handler
-  | route :: mode :: toks =>
+  | route :: mode :: toks0 =>
     if !(["set", "additem", "addpkt", "update", "parse"].contains route) || !(["0", "1", "2"].contains mode) then none else
-    match CifArg.parseValue (Ser.cfg) (toks.length + 1) toks with
+    match Ser.takeNormPairs toks0 with
+    | none => none
+    | some (nf, toks) =>
+    match CifArg.parseValue (Ser.cfg nf) (toks.length + 1) toks with
     | some (v, []) =>
       match toColumns v with
       | none => some "sv rc=2"
